@@ -15,6 +15,20 @@ TAG = 1 << 32               # Set keys: tag * 2^32 + value
 TICK_MS = 1000              # the cache's timing wheel interval (cache.go: time.Second)
 SLACK_MS = 400              # scheduling slack allowed around the expiry window
 
+# The shared evaluator shards 400 cases per coqc process; C16 has a few heavy cases
+# (SafeMap histories with > 20000 primitive operations) and fewer than 16 * 400 cases,
+# so use smaller shards to keep all cores busy.  Only this process is affected.
+_coq_eval_cases = vlib.coq_eval_cases
+
+
+def _eval_small_shards(prop, check_module, terms, preamble="", shard=400, timeout=900):
+    if prop == "C16":
+        shard = max(1, min(48, (len(terms) + vlib.NCPU - 1) // vlib.NCPU))
+    return _coq_eval_cases(prop, check_module, terms, preamble=preamble, shard=shard, timeout=timeout)
+
+
+vlib.coq_eval_cases = _eval_small_shards
+
 
 def _obs(o):
     t = o[0]
@@ -87,6 +101,7 @@ class C16(Property):
                 self.copy_thr, self.max_del = int(m1.group(1)), int(m2.group(1))
         except OSError:
             pass
+        return self.copy_thr, self.max_del
 
     # ------------------------------------------------------------------ corpus
     def corpus(self):
@@ -107,17 +122,19 @@ class C16(Property):
                     cs.append({"kind": "window", "size": size, "interval": iv, "t0": t0, "ignore": ig, "ops": ops})
         # safemap: past maxDeletion with few live keys (both generations migrate), then with
         # more than copyThreshold live keys (writes switch to dirtyNew, later migration)
+        ct, md = self._consts()
         probe = [["size"], ["get", 1], ["get", 5], ["get", 777], ["get", 100000], ["range"]]
         cs.append({"kind": "safemap", "ops":
-                   [["setseq", 0, 10, 1], ["churn", 777, 3, 9999]] + probe + [["churn", 777, 3, 1], ["set", 5, 50]] + probe +
+                   [["setseq", 0, 10, 1], ["churn", 777, 3, md - 1]] + probe + [["churn", 777, 3, 1], ["set", 5, 50]] + probe +
                    [["churn", 778, 4, 2], ["set", 778, 8], ["del", 3]] + probe +
-                   [["churn", 779, 4, 10001], ["set", 6, 60], ["del", 2]] + probe})
+                   [["churn", 779, 4, md + 1], ["set", 6, 60], ["del", 2]] + probe})
+        live = ct + 30
         cs.append({"kind": "safemap", "ops":
-                   [["setseq", 0, 1100, 1], ["churn", 5000, 3, 10001], ["size"], ["set", 5, 55], ["set", 6000, 7], ["get", 5],
-                    ["get", 6000], ["size"], ["delseq", 0, 90], ["size"], ["get", 5], ["get", 100], ["set", 100, 9],
-                    ["delseq", 90, 20], ["size"], ["get", 100], ["get", 6000], ["get", 500], ["set", 500, 2], ["get", 500],
-                    ["churn", 5001, 3, 10001], ["size"], ["get", 500], ["get", 6000], ["delseq", 200, 950], ["size"],
-                    ["get", 500], ["get", 1099], ["get", 6000], ["set", 7000, 1], ["del", 7000], ["size"]]})
+                   [["setseq", 0, live, 1], ["churn", 50000, 3, md + 1], ["size"], ["set", 5, 55], ["set", 60000, 7], ["get", 5],
+                    ["get", 60000], ["size"], ["delseq", 0, 25], ["size"], ["get", 5], ["get", 100], ["set", 100, 9],
+                    ["delseq", 25, 10], ["size"], ["get", 100], ["get", 60000], ["get", 500], ["set", 500, 2], ["get", 500],
+                    ["size"], ["get", 500], ["get", 60000], ["delseq", 200, ct // 2], ["size"],
+                    ["get", 500], ["get", live - 1], ["get", 60000], ["set", 70000, 1], ["del", 70000], ["size"]]})
         # queue: growth while wrapped
         cs.append({"kind": "queue", "size": 2, "ops":
                    [["put", 1], ["put", 2], ["take"], ["put", 3], ["put", 4], ["put", 5], ["take"], ["take"], ["put", 6],
@@ -496,18 +513,38 @@ class C16(Property):
             fs.append("executor_error")
         return fs
 
+    @staticmethod
+    def _bulk(o):
+        """(index of the count, count) of a bulk SafeMap op, else None."""
+        if o[0] == "churn":
+            return 3, o[3]
+        if o[0] in ("setseq", "delseq"):
+            return 2, o[2]
+        return None
+
+    def _weight(self, case):
+        return sum((self._bulk(o) or (0, 1))[1] for o in case["ops"])
+
     def shrink_candidates(self, case):
-        res = Property.shrink_candidates(self, case)
-        # shorten bulk runs too
-        for i, o in enumerate(case["ops"]):
-            if o[0] in ("churn", "setseq", "delseq") and o[-1 if o[0] != "setseq" else 2] > 1:
-                c = dict(case)
-                o2 = list(o)
-                j = len(o) - 1 if o[0] != "setseq" else 2
-                o2[j] = o[j] // 2
-                c["ops"] = case["ops"][:i] + [o2] + case["ops"][i + 1:]
-                res.append(c)
-        return res[:260]
+        ops = case["ops"]
+        res = []
+        # shorten bulk runs first (halve, and to just below / at the threshold)
+        for i, o in enumerate(ops):
+            b = self._bulk(o)
+            if b and b[1] > 1:
+                j, n = b
+                for n2 in sorted(set([n // 2, n - 1, self.max_del if n > self.max_del else n // 2])):
+                    if 0 < n2 < n:
+                        o2 = list(o)
+                        o2[j] = n2
+                        c = dict(case)
+                        c["ops"] = ops[:i] + [o2] + ops[i + 1:]
+                        res.append(c)
+        res += Property.shrink_candidates(self, case)
+        # heavy histories cost seconds each in Coq: try only a few candidates per round
+        if self._weight(case) > 4000:
+            return res[:vlib.NCPU]
+        return res[:200]
 
     def describe_failure(self, case, obs):
         k = case["kind"]
